@@ -415,7 +415,7 @@ def proof_gate(report, res, prop, deps):
 TRUSTED = [
     "Coq 8.16.1 kernel; vm_compute is used (no native_compute)",
     "no axioms: every Props theorem prints 'Closed under the global context' (recorded per run in coverage.print_assumptions)",
-    "definitions in coq/Spec (SMILES semantics, valence, isomorphism, grammar derivation, reader) are specification",
+    "definitions in coq/Spec (SMILES semantics, valence, isomorphism, grammar derivation, reader) are specification; the driver runs the fast isomorphism search and the memoising recogniser of coq/Model, each proved equal / sound+complete against the Spec definition (Props/C01 C01_fast_search_is_the_specified_one, Props/C15)",
     "translators tools/translate/*.py (Python ast / .g4 reader) regenerate coq/Gen from /repo on every run",
     "extraction: ExtrOcamlBasic + ExtrOcamlString directives only (bool, option, unit, list, prod, sumbool, ascii=>char, string=>char list); OCaml 4.13.1",
     "oracles validated per instance, never axioms: RDKit reader/writer, ANTLR runtime, networkx, joblib",
